@@ -34,18 +34,20 @@ func init() { core.Register("C09", Run) }
 
 // StepExpect is what spec/Cache.tla predicts for one step of a history
 type StepExpect struct {
-	Changed   bool     `json:"changed"`
-	Dirty     bool     `json:"dirty"`
-	Missed    bool     `json:"missed"`
-	Stale     bool     `json:"stale"`
-	EpStale   bool     `json:"epStale"`
-	AstBad    []string `json:"astBad"`
-	BadFields []string `json:"badFields"`
-	Uncovered []string `json:"uncovered"`
-	FsHit     []string `json:"fsHit"`
-	AstHit    []string `json:"astHit"`
-	Loaded    []string `json:"loaded"`
-	Diag      []string `json:"diag"`
+	Changed    bool     `json:"changed"`
+	Dirty      bool     `json:"dirty"`
+	Missed     bool     `json:"missed"`
+	Stale      bool     `json:"stale"`
+	EpStale    bool     `json:"epStale"`
+	AstBad     []string `json:"astBad"`
+	BadFields  []string `json:"badFields"`
+	Uncovered  []string `json:"uncovered"`
+	MissedU    bool     `json:"missedU"`    // as Missed, had the previous build seen unusable mod keys
+	UncoveredU []string `json:"uncoveredU"` //
+	FsHit      []string `json:"fsHit"`
+	AstHit     []string `json:"astHit"`
+	Loaded     []string `json:"loaded"`
+	Diag       []string `json:"diag"`
 }
 
 type Case struct {
@@ -243,7 +245,7 @@ func designChecks(r *core.Run) {
 			defer wg.Done()
 			sem <- struct{}{}
 			defer func() { <-sem }()
-			res, err := tlcrun.Run(r, tlcrun.Options{Module: "Cache", Config: c, Workers: 1, TimeoutSec: 1800})
+			res, err := tlcrun.Run(r, tlcrun.Options{Module: "Cache", Config: c, Workers: 1, TimeoutSec: 3600})
 			if err != nil {
 				r.Infra("%v", err)
 				return
@@ -428,7 +430,10 @@ func judge(r *core.Run, cnt *counters, c Case, osName string, old bool, out repl
 			r.Violation(k, fmt.Sprintf("%s after [%s] (step %d, %s, %s mtimes) differs from a fresh build of the same tree: %s", which, c.String(), i+1, osName, regime, diff),
 				map[string]interface{}{"edits": c.Edits, "expect": c.Expect, "observed": out.Steps})
 		}
-		// ---- watch completeness
+		// ---- watch completeness (the prediction depends on the mtime regime)
+		if !old && ex.MissedU && !ex.Missed {
+			ex.Missed, ex.Uncovered = true, ex.UncoveredU
+		}
 		if ex.Missed {
 			atomic.AddInt64(&cnt.candMissed, 1)
 			if st.Missed {
